@@ -12,7 +12,7 @@ namespace PromVerif.Lemmas.Gateway
 open PromVerif.Py PromVerif.Model.Gateway PromVerif.Spec.Gateway
 open PromVerif.Lemmas.Base64 PromVerif.Lemmas.Quote PromVerif.Lemmas.GatewaySort
 open PromVerif.Generated.Gateway (jobLit urlFmt pairFmt slashLit emptyMarker sortsGroupingKey httpPrefix rstripChars
-  allowedSchemes)
+  allowedSchemes spaceAsPlus)
 
 /-! ### split ∘ join -/
 
@@ -85,12 +85,12 @@ theorem isInfix_singleton (c : Char) (v : Str) : isInfix [c] v = v.contains c :=
 
 /-! ### one escaped pair -/
 
-/-- the three cases of `_escape_grouping_key` -/
-theorem escape_cases (k v : Str) :
-    (v = [] ∧ escapeGroupingKey k v = (k ++ Spec.Gateway.base64Suffix, ['='])) ∨
-    (v ≠ [] ∧ '/' ∈ v ∧ escapeGroupingKey k v = (k ++ Spec.Gateway.base64Suffix, b64encode (utf8 v))) ∨
-    (v ≠ [] ∧ '/' ∉ v ∧ escapeGroupingKey k v = (k, quotePlus v)) := by
-  unfold escapeGroupingKey
+/-- the three cases of `_escape_grouping_key` (either encoder) -/
+theorem escape_cases (q : Bool) (k v : Str) :
+    (v = [] ∧ escapeGroupingKeyWith q k v = (k ++ Spec.Gateway.base64Suffix, ['='])) ∨
+    (v ≠ [] ∧ '/' ∈ v ∧ escapeGroupingKeyWith q k v = (k ++ Spec.Gateway.base64Suffix, b64encode (utf8 v))) ∨
+    (v ≠ [] ∧ '/' ∉ v ∧ escapeGroupingKeyWith q k v = (k, quoteWith q v)) := by
+  unfold escapeGroupingKeyWith
   have hs : slashLit = ['/'] := by decide
   have hb : Generated.Gateway.base64Suffix = Spec.Gateway.base64Suffix := by decide
   have he : emptyMarker = ['='] := by decide
@@ -121,17 +121,17 @@ theorem utf8_ne_nil {v : Str} (h : v ≠ []) : utf8 v ≠ [] := by
   | nil => exact absurd rfl h
   | cons c cs => simp [utf8]
 
-theorem quotePlusBytes_ne_nil {bs : Bytes} (h : bs ≠ []) : quotePlusBytes bs ≠ [] := by
+theorem quoteBytes_ne_nil (q : Bool) {bs : Bytes} (h : bs ≠ []) : quoteBytes q bs ≠ [] := by
   cases bs with
   | nil => exact absurd rfl h
   | cons b bs =>
-    have : quoteByte b ≠ [] := by
+    have : quoteByte q b ≠ [] := by
       unfold quoteByte
       simp only []
       split
       · simp
       · split <;> simp
-    simp [quotePlusBytes, this]
+    simp [quoteBytes, this]
 
 theorem b64encode_ne_nil {bs : Bytes} (h : bs ≠ []) : b64encode bs ≠ [] := by
   match bs, h with
@@ -140,20 +140,21 @@ theorem b64encode_ne_nil {bs : Bytes} (h : bs ≠ []) : b64encode bs ≠ [] := b
   | _ :: _ :: _ :: _, _ => simp [b64encode]
 
 /-- neither component of an escaped pair is empty (non-empty name) -/
-theorem escape_ne_nil (k v : Str) (hk : k ≠ []) :
-    (escapeGroupingKey k v).1 ≠ [] ∧ (escapeGroupingKey k v).2 ≠ [] := by
-  rcases escape_cases k v with ⟨_, he⟩ | ⟨hv, _, he⟩ | ⟨hv, _, he⟩ <;> rw [he]
+theorem escape_ne_nil (q : Bool) (k v : Str) (hk : k ≠ []) :
+    (escapeGroupingKeyWith q k v).1 ≠ [] ∧ (escapeGroupingKeyWith q k v).2 ≠ [] := by
+  rcases escape_cases q k v with ⟨_, he⟩ | ⟨hv, _, he⟩ | ⟨hv, _, he⟩ <;> rw [he]
   · exact ⟨by simp [hk], by simp⟩
   · exact ⟨by simp [hk], b64encode_ne_nil (utf8_ne_nil hv)⟩
-  · exact ⟨hk, quotePlusBytes_ne_nil (utf8_ne_nil hv)⟩
+  · exact ⟨hk, quoteBytes_ne_nil q (utf8_ne_nil hv)⟩
 
-/-- the Pushgateway reads an escaped pair back as the original pair -/
-theorem decodePair_escape (k v : Str) (hk : '@' ∉ k) (hne : k ≠ []) :
-    decodePair (escapeGroupingKey k v).1 (escapeGroupingKey k v).2 = some (k, v) := by
-  have hnn := escape_ne_nil k v hne
-  unfold decodePair
+/-- the Pushgateway reads an escaped pair back as the original pair — under the reading `p` of `+`, for the
+encoder `q`, whenever an encoder that writes `+` for a space is read by a decoder that knows it -/
+theorem decodePair_escape (q p : Bool) (hqp : q = true → p = true) (k v : Str) (hk : '@' ∉ k) (hne : k ≠ []) :
+    decodePairWith p (escapeGroupingKeyWith q k v).1 (escapeGroupingKeyWith q k v).2 = some (k, v) := by
+  have hnn := escape_ne_nil q k v hne
+  unfold decodePairWith
   rw [if_neg (by simp [hnn.1, hnn.2])]
-  rcases escape_cases k v with ⟨hv, he⟩ | ⟨_, _, he⟩ | ⟨_, hns, he⟩
+  rcases escape_cases q k v with ⟨hv, he⟩ | ⟨_, _, he⟩ | ⟨_, hns, he⟩
   · rw [he]; subst hv
     simp only [stripSuffix_append]
     have : b64decode ['='] = some [] := by decide
@@ -164,38 +165,40 @@ theorem decodePair_escape (k v : Str) (hk : '@' ∉ k) (hne : k ≠ []) :
   · rw [he]
     simp only [stripSuffix_append, b64decode_b64encode, Option.bind_some, utf8Decode_utf8, Option.map_some]
   · rw [he]
-    simp only [stripSuffix_none k hk, unquotePlus_quotePlus]
+    simp only [stripSuffix_none k hk, unquoteWith_quoteWith q p hqp]
     simp [hns]
 
 /-- neither component of an escaped pair contains `/` (names without `/`) -/
-theorem escape_no_slash (k v : Str) (hk : '/' ∉ k) :
-    '/' ∉ (escapeGroupingKey k v).1 ∧ '/' ∉ (escapeGroupingKey k v).2 := by
+theorem escape_no_slash (q : Bool) (k v : Str) (hk : '/' ∉ k) :
+    '/' ∉ (escapeGroupingKeyWith q k v).1 ∧ '/' ∉ (escapeGroupingKeyWith q k v).2 := by
   have hsuf : '/' ∉ k ++ Spec.Gateway.base64Suffix := by
     intro m
     rcases List.mem_append.mp m with m | m
     · exact hk m
     · revert m; decide
-  rcases escape_cases k v with ⟨_, he⟩ | ⟨_, _, he⟩ | ⟨_, _, he⟩ <;> rw [he]
+  rcases escape_cases q k v with ⟨_, he⟩ | ⟨_, _, he⟩ | ⟨_, _, he⟩ <;> rw [he]
   · exact ⟨hsuf, by simp⟩
   · exact ⟨hsuf, fun m => (b64encode_chars _ _ m).1 rfl⟩
-  · exact ⟨hk, quotePlusBytes_no_slash _⟩
+  · exact ⟨hk, quoteBytes_no_slash q _⟩
 
 /-! ### the whole path -/
 
-theorem decodePairs_segments (l : List (Str × Str)) (h : ∀ kv ∈ l, '@' ∉ kv.1 ∧ kv.1 ≠ []) :
-    decodePairs (segments l) = some l := by
+theorem decodePairs_segments (p : Bool) (hqp : spaceAsPlus = true → p = true) (l : List (Str × Str))
+    (h : ∀ kv ∈ l, '@' ∉ kv.1 ∧ kv.1 ≠ []) :
+    decodePairsWith p (segments l) = some l := by
   induction l with
   | nil => rfl
   | cons kv rest ih =>
-    have h1 := decodePair_escape kv.1 kv.2 (h kv (by simp)).1 (h kv (by simp)).2
+    have h1 := decodePair_escape spaceAsPlus p hqp kv.1 kv.2 (h kv (by simp)).1 (h kv (by simp)).2
     have h2 := ih (fun x hx => h x (List.mem_cons_of_mem _ hx))
-    show decodePairs ((escapeGroupingKey kv.1 kv.2).1 :: (escapeGroupingKey kv.1 kv.2).2 :: segments rest) = _
-    simp only [decodePairs, h1, h2]
+    show decodePairsWith p ((escapeGroupingKeyWith spaceAsPlus kv.1 kv.2).1 ::
+      (escapeGroupingKeyWith spaceAsPlus kv.1 kv.2).2 :: segments rest) = _
+    simp only [decodePairsWith, h1, h2]
 
 theorem segments_no_slash (l : List (Str × Str)) (h : ∀ kv ∈ l, '/' ∉ kv.1) : ∀ s ∈ segments l, '/' ∉ s := by
   intro s hs
   obtain ⟨kv, hkv, hm⟩ := List.mem_flatMap.mp hs
-  have := escape_no_slash kv.1 kv.2 (h kv hkv)
+  have := escape_no_slash spaceAsPlus kv.1 kv.2 (h kv hkv)
   simp only [List.mem_cons, List.not_mem_nil, or_false] at hm
   rcases hm with rfl | rfl
   · exact this.1
@@ -204,12 +207,14 @@ theorem segments_no_slash (l : List (Str × Str)) (h : ∀ kv ∈ l, '/' ∉ kv.
 theorem segments_ne_nil (kv : Str × Str) (l : List (Str × Str)) : segments (kv :: l) ≠ [] := by
   simp [segments]
 
-/-- every label list with `/`- and `@`-free names survives encode → split → decode -/
-theorem decodePath_join (kv : Str × Str) (l : List (Str × Str)) (h : ∀ x ∈ kv :: l, '/' ∉ x.1 ∧ '@' ∉ x.1 ∧ x.1 ≠ []) :
-    decodePath (joinStr ['/'] (segments (kv :: l))) = some (kv :: l) := by
-  unfold decodePath
+/-- every label list with `/`- and `@`-free non-empty names survives encode → split → decode, under the reading
+`p` of `+` provided `spaceAsPlus → p` -/
+theorem decodePath_join (p : Bool) (hqp : spaceAsPlus = true → p = true) (kv : Str × Str) (l : List (Str × Str))
+    (h : ∀ x ∈ kv :: l, '/' ∉ x.1 ∧ '@' ∉ x.1 ∧ x.1 ≠ []) :
+    decodePathWith p (joinStr ['/'] (segments (kv :: l))) = some (kv :: l) := by
+  unfold decodePathWith
   rw [splitSlash_join _ (segments_ne_nil kv l) (segments_no_slash _ (fun x hx => (h x hx).1))]
-  exact decodePairs_segments _ (fun x hx => (h x hx).2)
+  exact decodePairs_segments p hqp _ (fun x hx => (h x hx).2)
 
 /-! ### URL = base ++ "/metrics/" ++ path -/
 
